@@ -12,7 +12,7 @@ LEVEL = "exploration"
 RULE = ("history = 1-4 real group members with 1-3 configured assignors in seeded order, JoinGroup v0..v5 brokers "
         "(MEMBER_ID_REQUIRED from v4), per-request fates on JoinGroup / SyncGroup / Heartbeat / OffsetCommit / OffsetFetch / "
         "FindCoordinator / LeaveGroup (drop before apply, reset after apply, reply lost, delay, every retriable and "
-        "membership error code), coordinator moves with and without state, broker bounces, session expiries, kills, "
+        "membership error code; in 30% of the histories also authorization / inconsistent-protocol / invalid-session codes), coordinator moves with and without state, broker bounces, session expiries, kills, "
         "stop()s, subscription changes. Judged: (1) every JoinGroup lists exactly the configured assignor names in "
         "order; (2) a NoError JoinGroup reply the member can still be waiting for is followed by SyncGroup(generation, "
         "member id of the reply) unless a fault fate hit a request of that member, a harness call (subscribe/stop/kill), "
@@ -26,7 +26,9 @@ ASSUMPTIONS = [
     "liveness is restated as bounded progress: B_group = 4 x (request + session + rebalance timeout) + 40 x retry backoff "
     "of virtual time after the last fault",
     "request_timeout_ms > rebalance_timeout_ms as with the library defaults (a parked JoinGroup must not time out client-side)",
-    "only retriable / membership error codes are injected; authorization and other fatal codes are not part of these runs",
+    "non-retriable coordinator codes (GROUP/TOPIC authorization, INCONSISTENT_GROUP_PROTOCOL, INVALID_SESSION_TIMEOUT) are injected "
+    "in 30% of the 'faults'/'mixed' histories: the application's poll loop catches the raised error and goes on polling; a "
+    "member whose start() itself failed with such an error is not expected to converge",
     "histories in which the sticky assignor does not terminate (C14 known finding) are skipped and counted",
 ]
 REQUIRED_COUNTERS = ["histories_judged", "joingroups_checked", "join_ok_replies_followed", "join_then_sync",
